@@ -26,8 +26,8 @@ pub fn checks() -> Vec<Check> {
         rule: "2..3 real Swarms each run #[derive(NetworkBehaviour)] { request_response::Behaviour<PlanCodec>, Gate } (the gate can deny the next established connections, as connection-limits or block lists do). Seeded operations: send_request to connected, unconnected, unreachable and unknown peers (each request carries a plan: fail or stall in write_request / read_request / write_response / read_response), explicit dials, close_connection, disconnect_peer_id, transport resets, arming the gate, answering inbound requests at once, later, never (channel dropped) or after the connection died, virtual time steps around the 10 s request timeout. At the end all held channels are released and two timeouts pass. Then: every OutboundRequestId returned by send_request has exactly one Response or OutboundFailure, every inbound request delivered to the application has exactly one ResponseSent or InboundFailure, ids are unique per node, a Response carries the payload of its own request",
         assumptions: &["security/muxing stubbed (E2 stack); request timeout 10 s"],
         real: &["request_response::Behaviour and Handler on both sides, Swarm, pool, multistream-select, derive(NetworkBehaviour) composition"],
-        stub: &["transport/security/muxer -> SimTransport/SimMuxer", "codec -> scripted failures per request", "clock -> virtual"],
-        scenarios: vec![Scenario::new("request-response", 400, 40_000, request_response)],
+        stub: &["transport/security/muxer -> SimTransport/SimMuxer in scenario request-response; in request-response-full-stack only the byte pipe is simulated (real multistream-select + noise + yamux/mplex)", "codec -> scripted failures per request", "clock -> virtual"],
+        scenarios: vec![Scenario::new("request-response", 400, 40_000, request_response), Scenario::new("request-response-full-stack", 100, 10_000, request_response_full)],
     }]
 }
 
@@ -167,16 +167,29 @@ struct N {
 }
 
 fn request_response() -> SimResult {
+    run_rr(false)
+}
+
+/// The same workload over the real connection stack (multistream-select + noise + yamux/mplex on simulated pipes).
+fn request_response_full() -> SimResult {
+    run_rr(true)
+}
+
+fn run_rr(full: bool) -> SimResult {
     begin();
+    crate::full::reset(false);
     draw_policy();
     net::with_net(|n| n.faults = false);
+    let mux = if choose(2) == 0 { crate::full::Mux::Yamux } else { crate::full::Mux::Mplex };
+    let lazy = choose(3) == 0;
     let n = 2 + choose(2);
     let timeout = Duration::from_secs(10);
     let mut nodes: Vec<N> = (0..n)
         .map(|i| {
             let armed = Arc::new(AtomicU32::new(0));
             let a2 = armed.clone();
-            let node = PNode::new(move |_| RrComp { rr: rr::Behaviour::with_codec(PlanCodec, [(StreamProtocol::new("/plan/1"), rr::ProtocolSupport::Full)], rr::Config::default().with_request_timeout(timeout)), gate: Gate { armed: a2 } }, &steady_knobs());
+            let mk = move |_: &libp2p_identity::Keypair| RrComp { rr: rr::Behaviour::with_codec(PlanCodec, [(StreamProtocol::new("/plan/1"), rr::ProtocolSupport::Full)], rr::Config::default().with_request_timeout(timeout)), gate: Gate { armed: a2 } };
+            let node = if full { PNode::on(|idx, key| crate::full::full_transport(idx, key, mux, lazy), libp2p_identity::Keypair::generate_ed25519(), mk, &steady_knobs()) } else { PNode::new(mk, &steady_knobs()) };
             // the last node of a 3-node run is unreachable (never listens)
             let listening = !(n == 3 && i == 2 && choose(2) == 0);
             if listening {
@@ -239,9 +252,13 @@ fn request_response() -> SimResult {
                 }
                 8 => {
                     if fault("transport_reset", 500) {
-                        let c = net::conn_count();
+                        let c = if full { crate::full::pipe_count() } else { net::conn_count() };
                         if c > 0 {
-                            net::reset_conn(choose(c));
+                            if full {
+                                crate::full::reset_pipe(choose(c));
+                            } else {
+                                net::reset_conn(choose(c));
+                            }
                         }
                     }
                 }
@@ -342,6 +359,9 @@ fn request_response() -> SimResult {
     }
     if total >= 3 {
         mark_nontrivial();
+    }
+    if full && nodes.iter().any(|n| n.out_terminal.values().any(|v| *v > 0)) && nodes.iter().any(|n| !n.inbound_seen.is_empty()) {
+        probe("full-stack-request-delivered");
     }
     note_val("n", n as u64);
     Ok(())
